@@ -563,15 +563,34 @@ impl Database {
         // wait for the update_watchers to release the key
         let (value, version) = {
             let mut db = self.map.write().unwrap();
+            // A removed key (tombstone) counts as absent, like for every other command
+            let old_value = db
+                .get(&key.to_string())
+                .filter(|v| v.state != ValueStatus::Deleted)
+                .cloned();
             match i32::from_str_radix(
-                &db.get(&key.to_string())
-                    .unwrap_or(&Value::from("0"))
-                    .to_string(),
+                &old_value
+                    .as_ref()
+                    .map(|v| v.to_string())
+                    .unwrap_or(String::from("0")),
                 10,
             ) {
                 Ok(current) => {
                     let next = (current + inc).to_string();
-                    db.insert(key.clone(), Value::from(next.clone()));
+                    // Keep the version growing and keep the disk state of the key, a plain
+                    // Value::from would reset the version to 1 and forget where the key is on disk
+                    let new_value = match db.get(&key.to_string()) {
+                        Some(old) => Value {
+                            value: next.clone(),
+                            version: old.version + 1,
+                            opp_id: Databases::next_op_log_id(),
+                            state: old.get_update_value_sate(),
+                            value_disk_addr: old.value_disk_addr,
+                            key_disk_addr: old.key_disk_addr,
+                        },
+                        None => Value::from(next.clone()),
+                    };
+                    db.insert(key.clone(), new_value);
                     (next, -1)
                 }
                 _ => {
